@@ -1162,6 +1162,13 @@ def e2e_problem(rng):
         P['types'][nm] = gen.make_type(
             rng, int(rng.integers(2, 4)), 0.1175, n_duct=1,
             corr=wl.choose(rng, E2E_CORR), duct_material='steel_const')
+    with_regions = bool(rng.random() < 0.35)
+    if with_regions:
+        # un-rodded regions below and above the bundle carry a good part of
+        # the assembly pressure drop
+        for nm in names:
+            wl.add_axial_regions(rng, P, nm, n_lower=1, n_upper=1,
+                                 models=('simple',))
     style = wl.choose(rng, ['uniform', 'spread', 'cluster', 'ties',
                             'sixfold', 'geom', 'neargap'])
     p = power_list(rng, 7, style)
@@ -1199,6 +1206,7 @@ def e2e_problem(rng):
     feats = {'style': style, 'types': len(names), 'grouped': grouped,
              'n_asm_grouped': n_asm, 'n_groups': ng, 'gap': gap,
              'lin_cp': bool(lin_cp), 'regroup': orf['regroup'],
+             'axial_regions': with_regions,
              'iters': orf['iteration_limit'], 'cpc': cpc,
              'type_of_id': {k0: tnames[k0] for k0 in range(7)}}
     return P, feats
@@ -1276,6 +1284,7 @@ def run_e2e(case, res):
         res.tag('e2emix:listed_first=%s' % feats['grouped'][0])
     for k in ('style', 'gap', 'regroup', 'n_groups', 'types', 'lin_cp'):
         res.tag('e2e:%s=%s' % (k, feats[k]))
+    res.tag('e2e:axial_regions=%s' % bool(feats.get('axial_regions')))
     n_tp = int(case.get('n_tp', 1))
     with drive.scratch() as d, Hooks() as hk:
         path = gen.render(P, d)
